@@ -160,3 +160,26 @@ def ambient(kind):
             ctx.Emax = 99
             ctx.Emin = -99
         yield
+
+
+class host_stack:
+    """The harness raises the interpreter's recursion limit for its own (recursive) reference parsers.  Library calls
+    made inside this context see what a host program with the default limit of 1000 would give them: about 950
+    frames of headroom below the current frame."""
+
+    def __init__(self, headroom=950):
+        self.headroom = headroom
+
+    def __enter__(self):
+        import sys
+        f, here = sys._getframe(), 0
+        while f is not None:
+            here, f = here + 1, f.f_back
+        self.saved = sys.getrecursionlimit()
+        sys.setrecursionlimit(here + self.headroom)
+        return self
+
+    def __exit__(self, *a):
+        import sys
+        sys.setrecursionlimit(self.saved)
+        return False
